@@ -229,7 +229,7 @@ struct Exec {
     else if (via == "dd" && is_x86) e = xa.dd(uint32_t(v), size_t(rc));
     else if (via == "dq" && is_x86) e = xa.dq(uint64_t(v), size_t(rc));
     else return;
-    w.beginObj().kv("e", "EmbedArray").kv("via", via).kv("tid", tid);
+    w.beginObj().kv("e", "EmbedArray").kv("via", via).kv("tid", tid).bytes("item", item.data(), item.size());
     if (ic <= 64) w.bytes("data", arr.data(), ic ? arr.size() : 0); else w.bytes("data", nullptr, 0);
     w_limbs(w, "ic", ic); w_limbs(w, "rc", rc);
     w.kv("r", err_name(e));
@@ -251,6 +251,9 @@ struct Exec {
     Error e = a->embed_const_pool(L, pool);
     w.beginObj().kv("e", "EmbedConstPool").kv("lab", (long long)(l >= 1 && l <= labels.size() ? l : 0))
      .kv("palign", pool.alignment()).bytes("image", image.data(), pool.size()).kv("r", err_name(e));
+    w.key("items").beginArr();
+    for (auto& it : items) { w.beginArr(); for (uint8_t x : it) w.val((long long)x); w.endArr(); }
+    w.endArr();
     label_state("lb", L);
     app_bytes(off0); post();
     w.endObj().emit(out);
@@ -487,6 +490,12 @@ static void run_op(Exec& ex, const vj::Value& op) {
     if (palign) for (size_t i = 0; i + palign <= image.size(); i += palign) items.emplace_back(image.begin() + i, image.begin() + i + palign);
     ex.embed_const_pool(size_t(op[1].i()), items);
   }
+  else if (k == "Pool") {
+    std::vector<std::vector<uint8_t>> items;
+    for (auto& it : op[2].arr) items.push_back(bytes_of(it));
+    ex.embed_const_pool(size_t(op[1].i()), items);
+  }
+  else if (k == "Snap") ex.snapshot();
   else if (k == "EmbedLabel") ex.embed_label(size_t(op[1].i()), size_t(op[2].i()));
   else if (k == "EmbedLabelDelta") ex.embed_label_delta(size_t(op[1].i()), size_t(op[2].i()), size_t(op[3].i()));
   else if (k == "Bind") ex.bind(size_t(op[1].i()));
@@ -535,6 +544,7 @@ static void random_exec(FILE* out, vj::Rng& r, unsigned steps) {
     for (const char* o : ops) if (r.chance(2, 3)) ex.detached(o);
   }
   ex.attach();
+  for (unsigned k = unsigned(r.below(4)); k > 0; k--) ex.new_label();
   // flavour of the execution: plain (Builder-expressible), with rewinds, with fixed / reserved sections
   unsigned flavour = unsigned(r.below(10));       // 0..4 plain, 5..6 rewind, 7..8 fixed, 9 everything
   bool rewind = flavour == 5 || flavour == 6 || flavour == 9;
